@@ -54,7 +54,34 @@ def gen_on(rnd, depth, eq_only=False):
     return ["cmp", op, a, b]
 
 
+KEYWORD_NAMES = {"a": "key", "z": "name", "k": "value", "m": "status", "b": "date"}
+
+
+def rename(x, names):
+    """the same case with its columns renamed (document rows and the query's column paths)"""
+    if isinstance(x, dict):
+        return {names.get(k, k) if isinstance(k, str) else k: rename(v, names) for k, v in x.items()}
+    if isinstance(x, list):
+        if len(x) >= 2 and x[0] == "col" and isinstance(x[1], list):
+            return ["col", [x[1][0]] + [names.get(p, p) for p in x[1][1:]]] + [rename(y, names) for y in x[2:]]
+        return [rename(y, names) for y in x]
+    return x
+
+
 def gen_case(rnd):
+    c = gen_case0(rnd)
+    if rnd.random() < 0.2:
+        # column names are data: the same join over columns called key / name / value / status / date (SQL keywords, which a
+        # printer of the syntax tree would quote)
+        doc = {t: [rename(row, KEYWORD_NAMES) for row in rows] for t, rows in c["doc"].items()}
+        q = rename(c["q"], KEYWORD_NAMES)
+        c2 = mk_case(doc, q, mode="multiset", tag=c["tag"], num_kind=c.get("num_kind"))
+        c2["mixed"], c2["sides"], c2["renamed"] = c.get("mixed"), c.get("sides"), True
+        return c2
+    return c
+
+
+def gen_case0(rnd):
     l, r = gen_side(rnd, LCOLS), gen_side(rnd, RCOLS)
     mixed = rnd.random() < 0.1
     if mixed:
